@@ -384,6 +384,8 @@ func detSection(t *rapid.T, opts gen.Opts) string {
 	}
 	line("    print(d)")
 	line("    print(list(d.items())[:7], d.keys()[-3:], len(d))")
+	// every key that iteration yields must be found by lookup, membership and pop-with-default (whatever the hash seed)
+	line("    print([k for k in list(d) if k not in d], [k for k in d.keys() if d.get(k, \"absent\") == \"absent\"], len([k for k, v in d.items() if d[k] != v]))")
 	for i := 0; i < 1+vk.Uniform(t, 5); i++ {
 		switch vk.Uniform(t, 14) {
 		case 0:
